@@ -593,3 +593,29 @@ def _pbinds(pat):
     if isinstance(pat.get("sub"), dict):
         out += _pbinds(pat["sub"])
     return out
+
+
+def position_values(t, F):
+    """Canonical square values: Position::new_assert/new_unsafe/new_unchecked(lit, lit) and consts of type Position become
+    ("pos", row, col), so that equal squares compare equal however they are spelled."""
+    if not isinstance(t, tuple) or not t:
+        return t
+    if t[0] == "call" and isinstance(t[1], str) and t[1].startswith("chess::position::Position::new") and len(t[2]) == 2:
+        r, c = hir.sym_int(t[2][0]), hir.sym_int(t[2][1])
+        if r is not None and c is not None:
+            return ("pos", r, c)
+    if t[0] == "const" and t[1] in F.consts and F.consts[t[1]]["ty"] == "chess::position::Position":
+        try:
+            b = F.const_bytes(t[1])
+            if len(b) == 2:
+                return ("pos", int.from_bytes(b[0:1], "little", signed=True), int.from_bytes(b[1:2], "little", signed=True))
+        except Exception:
+            pass
+    return tuple(position_values(x, F) if isinstance(x, tuple) else x for x in t)
+
+
+def summarize_with_returns(fn, F):
+    """Normal form of a function's value with early returns / `?` turned into values first (rules/inline.py)."""
+    from . import inline
+    h = {"params": fn["hir"]["params"], "body": inline.body_as_value(fn["hir"], fn["hir"]["body"])}
+    return hir.Exec(h, F).run()
